@@ -201,3 +201,104 @@ impl Scenario for CacheRace {
         out
     }
 }
+
+/// S-SCANPRESSURE (C07, "pressure-driven eviction of cached file data in very large workspaces never changes the
+/// answers for any document"): the real scan of a generated workspace is repeated after 2 001+ filler test files
+/// (defining and using nothing) were added next to it, so that the text cache overflows DURING the scan; every
+/// answer for the original documents must be the same as without the fillers.
+pub struct ScanPressure;
+
+#[derive(Clone, Debug, Serialize, Deserialize)]
+pub struct ScanPressureInput {
+    pub sim: SimParams,
+    pub spec: WsSpec,
+    pub fillers: usize,
+    pub run_seed: u64,
+    #[serde(default)]
+    pub sandbox: Option<String>,
+}
+
+impl Scenario for ScanPressure {
+    fn name(&self) -> &'static str {
+        "scan-pressure"
+    }
+    fn rule(&self) -> &'static str {
+        "generated workspace with imports (conftests star-importing helper modules, optional venv) scanned by the real scan_workspace, then scanned \
+         again by a new index after 2001-2600 filler test files were added in a sibling directory (the cache limit of 2000 texts is crossed during the \
+         scan); the normalised answers for the original documents must be identical; non-trivial = some conftest imports a helper module; distinct = spec hash x schedule"
+    }
+    fn runs(&self, tier: Tier) -> u64 {
+        match tier {
+            Tier::Quick => 48,
+            Tier::Thorough => 3_000,
+        }
+    }
+    fn shrink_paths(&self) -> Vec<&'static str> {
+        vec!["/spec/files", "/spec/files/*/items"]
+    }
+    fn gen(&self, run_seed: u64, _tier: Tier) -> Value {
+        let mut rng = Rng::new(run_seed);
+        let mut o = WsOpts::default();
+        o.max_dirs = 4;
+        o.n_names = rng.range(2, 4);
+        o.imports = true;
+        o.colliding_imports = rng.chance(300);
+        o.venv = rng.chance(300);
+        o.file.in_class = false;
+        let spec = gen_ws(&mut rng, &o);
+        let mut sim = SimParams::gen(&mut rng, 400_000);
+        sim.max_steps = 2_000_000_000;
+        serde_json::to_value(ScanPressureInput { sim, spec, fillers: rng.range(2001, 2600), run_seed, sandbox: None }).unwrap()
+    }
+    fn exec(&self, input: &Value) -> RunOut {
+        let mut out = RunOut::default();
+        let inp: ScanPressureInput = match serde_json::from_value(input.clone()) {
+            Ok(i) => i,
+            Err(e) => {
+                out.harness_error = Some(format!("bad input: {}", e));
+                return out;
+            }
+        };
+        let sb = Sandbox::acquire("c07p", inp.run_seed, inp.sandbox.as_deref().map(Path::new));
+        let root = inp.spec.materialise(&sb.root());
+        let files: Vec<PathBuf> = inp.spec.files.iter().filter(|f| f.rel.ends_with(".py") && !f.rel.starts_with("..")).map(|f| root.join(&f.rel)).collect();
+        out.fingerprint = fnv(&serde_json::to_string(&(&inp.spec, inp.fillers)).unwrap());
+        out.nontrivial = inp.spec.files.iter().any(|f| f.rel.ends_with("conftest.py") && f.items.iter().any(|i| matches!(i, super::pytext::Item::Star { .. } | super::pytext::Item::Import { .. } | super::pytext::Item::Plugins { .. })));
+        let mut snaps = vec![];
+        for round in 0..2 {
+            if round == 1 {
+                let d = root.join("zz_fill");
+                let _ = std::fs::create_dir_all(&d);
+                for i in 0..inp.fillers {
+                    let _ = std::fs::write(d.join(format!("test_fill_{}.py", i)), format!("def test_f{}():\n    pass\n", i));
+                }
+                out.count("fault.cache_limit_crossed_during_scan", 1);
+            }
+            let fl = files.clone();
+            let (oc, r) = super::scen_resolve::scan_then(&inp.sim, replay_list(input, round), root.clone(), move |db, root| {
+                let evicted = fl.iter().filter(|f| !db.file_cache.contains_key(*f)).count();
+                (super::observe::snapshot_files(db, root, &fl, false, false), evicted)
+            });
+            out.absorb_outcome(&oc);
+            if let Some(a) = &oc.abort {
+                super::scen_resolve::abort_to_violation(&mut out, a, "scan under cache pressure");
+                return out;
+            }
+            let Some(r) = r else {
+                out.harness_error = Some("no snapshot".into());
+                return out;
+            };
+            snaps.push(r);
+        }
+        out.state_hash = snaps[1].0.hash();
+        out.count("probe.original_documents_evicted_by_the_scan", snaps[1].1 as u64);
+        for (key, a, b) in snaps[0].0.all_diffs(&snaps[1].0) {
+            // the unused list and references legitimately ignore the fillers; everything is keyed by original documents
+            out.violate("answers-change-under-scan-cache-pressure", format!("`{}` without fillers: {:?}; with {} filler files: {:?}", key, a, inp.fillers, b));
+            if out.violations.len() >= 3 {
+                break;
+            }
+        }
+        out
+    }
+}
